@@ -298,6 +298,11 @@ func (e *Engine) evalSpec(env *SpecEnv, x spec.Expr) (Val, error) {
 				return e.applyTerm(v, args, sig, 0), nil
 			}
 		}
+		if e.SpecFallback != nil {
+			if v, ok, err := e.SpecFallback(e, env, x); ok || err != nil {
+				return v, err
+			}
+		}
 		return e.specCallPure(env, x)
 	}
 	return Val{}, fmt.Errorf("spec: unsupported expression %T", x)
@@ -629,6 +634,36 @@ func registerBuiltinSpecs(e *Engine) {
 		}
 		return Val{smt.Eq(smt.App(smt.Int, "mod", smt.App(smt.Int, "div", f.T, b.T), smt.IntLit(2)), smt.IntLit(1)), types.Typ[types.Bool]}, nil
 	}
+	// elemOf(x, s): x is an element of slice s (membership with pattern-friendly axioms)
+	e.Specs["elemOf"] = func(e *Engine, env *SpecEnv, args []spec.Expr) (Val, error) {
+		if len(args) != 2 {
+			return Val{}, fmt.Errorf("spec: elemOf(x, s)")
+		}
+		x, err := e.evalSpec(env, args[0])
+		if err != nil {
+			return Val{}, err
+		}
+		sl, err := e.evalSpec(env, args[1])
+		if err != nil {
+			return Val{}, err
+		}
+		if !e.Decls.HasFun("elemOf") {
+			e.Decls.Fun("elemOf", []smt.Sort{smt.V, smt.V}, smt.Bool)
+			xs, ss, ys := smt.T{S: "x", Sort: smt.V}, smt.T{S: "s", Sort: smt.V}, smt.T{S: "y", Sort: smt.V}
+			k := smt.T{S: "k", Sort: smt.Int}
+			in := func(a, b smt.T) smt.T { return smt.App(smt.Bool, "elemOf", a, b) }
+			at := smt.App(smt.V, "s_at", ss, k)
+			ln := smt.App(smt.Int, "s_len", ss)
+			e.Axioms = append(e.Axioms, smt.Forall([]smt.Bound{{Name: "s", Sort: smt.V}, {Name: "k", Sort: smt.Int}}, smt.Implies(smt.And(smt.Le(smt.IntLit(0), k), smt.Lt(k, ln)), in(at, ss)), at))
+			e.Axioms = append(e.Axioms, smt.Forall([]smt.Bound{{Name: "x", Sort: smt.V}, {Name: "s", Sort: smt.V}}, smt.Implies(in(xs, ss),
+				smt.Exists([]smt.Bound{{Name: "k", Sort: smt.Int}}, smt.And(smt.Le(smt.IntLit(0), k), smt.Lt(k, ln), smt.Eq(at, xs)))), in(xs, ss)))
+			app := smt.App(smt.V, "s_app", ss, xs)
+			e.Axioms = append(e.Axioms, smt.Forall([]smt.Bound{{Name: "x", Sort: smt.V}, {Name: "s", Sort: smt.V}, {Name: "y", Sort: smt.V}},
+				smt.Eq(in(ys, app), smt.Or(in(ys, ss), smt.Eq(ys, xs))), in(ys, app)))
+			e.Axioms = append(e.Axioms, smt.Forall([]smt.Bound{{Name: "x", Sort: smt.V}, {Name: "s", Sort: smt.V}}, smt.Implies(smt.Eq(ln, smt.IntLit(0)), smt.Not(in(xs, ss))), in(xs, ss)))
+		}
+		return Val{smt.App(smt.Bool, "elemOf", Box(x.T), sl.T), types.Typ[types.Bool]}, nil
+	}
 	e.Specs["visited"] = func(e *Engine, env *SpecEnv, args []spec.Expr) (Val, error) {
 		if env.Visited == nil {
 			return Val{}, fmt.Errorf("spec: visited() outside a map-range invariant")
@@ -649,6 +684,29 @@ func registerBuiltinSpecs(e *Engine) {
 			return Val{}, err
 		}
 		return Val{smt.App(smt.Bool, "str_prefix", p.T, s.T), types.Typ[types.Bool]}, nil
+	}
+	e.Specs["perm"] = func(e *Engine, env *SpecEnv, args []spec.Expr) (Val, error) {
+		a, err := e.evalSpec(env, args[0])
+		if err != nil {
+			return Val{}, err
+		}
+		b, err := e.evalSpec(env, args[1])
+		if err != nil {
+			return Val{}, err
+		}
+		e.Decls.Fun("perm", []smt.Sort{smt.V, smt.V}, smt.Bool)
+		return Val{smt.App(smt.Bool, "perm", a.T, b.T), types.Typ[types.Bool]}, nil
+	}
+	e.Specs["fltlt"] = func(e *Engine, env *SpecEnv, args []spec.Expr) (Val, error) {
+		a, err := e.evalSpec(env, args[0])
+		if err != nil {
+			return Val{}, err
+		}
+		b, err := e.evalSpec(env, args[1])
+		if err != nil {
+			return Val{}, err
+		}
+		return Val{smt.App(smt.Bool, "flt_lt", a.T, b.T), types.Typ[types.Bool]}, nil
 	}
 	e.Specs["strlt"] = func(e *Engine, env *SpecEnv, args []spec.Expr) (Val, error) {
 		s, err := e.evalSpec(env, args[0])
